@@ -12,6 +12,15 @@ C13 monitor   for every target kind: real clf.sense()/clf.listen() against the s
               with any other documented bits -> BrokenLinkError (the external field is gone whatever else the chip
               noticed); a word without the time-out bit never TimeoutError, without the RF-off bit never
               BrokenLinkError.
+              Host-link clause: where the simulated transport itself raised IOError (write / ACK read / response
+              read of host command k: the harness knows the chip never saw, never acknowledged or never answered
+              the command) the only acceptable report is IOError - not an RF error, not data, not None / "no
+              target".  (Exception, observed only: ETIMEDOUT of the response read of InCommRF/TgCommRF, which a
+              driver that bounds this read by a host time-out could not tell from RF silence; the unchanged driver
+              reads without time-out and lets the IOError through.)  The same clause and the coarse clause (target
+              object | None | nfc.clf.Error subclass | IOError) run over the real clf.sense()/clf.listen() of every
+              target kind, with and without a remote device, the fault at every host command of the activation.
+              Device init()/close() under the same faults are observed (no verdict).
 C14 monitors  frames: Chipset.send_command() and the Frame class for all command codes x payload lengths, every
               written frame against vf.ref.port100_frames; responses: how corrupted responses are handled (recorded
               only); t2crc: the driver-side CRC_A check of Type 2 Tag responses against a bit-serial reference.
@@ -34,7 +43,14 @@ RULE_C13 = ("cells = target kind (9 remote cards: T1T/T2T/T4A/DEP 106A, 106B, 21
             "configuration commands get all 255 non-zero status bytes; every command gets every host-link fault "
             "(time-out/EIO/ENODEV at write, first and second read, missing/duplicate/short ACK, every truncation of the "
             "response frame and of its payload, every single-bit flip, wrong LCS/DCS/postamble/start code, error "
-            "frames, wrong response code/direction, garbage). A cell is distinct by (kind, k, fault) and non-trivial "
+            "frames, wrong response code/direction, garbage, well-formed responses with 1/2/5 surplus payload octets). "
+            "Activation cells = the 16 kinds + 8 'nobody there' kinds (no card / no reader: sense() and listen() run to their end) x host command k of the real clf.sense()/"
+            "clf.listen() (all n of the reference run, SwitchRF of mute() included) x every transport IOError "
+            "(3 errnos x write/ACK/response phase), surplus responses, wrong/missing/cut ACK, wrong response "
+            "code/direction, error frames, every truncation of frame and payload, status bytes 01h/02h/7Fh/FFh "
+            "(configuration commands) and the 12 documented status bits (RF commands). init()/close(): the same "
+            "faults at each of their host commands, observed only. "
+            "A cell is distinct by (stage, kind, k, fault) and non-trivial "
             "when the scripted fault was really delivered by the simulator during the exchange.")
 RULE_C14 = ("frames: every command code of the driver's table x payload lengths (quick 0..6, 250..270, 508..516, "
             "boundaries up to the 16 bit maximum, random; thorough every length 0..1100 per code and every length "
@@ -46,7 +62,19 @@ RULE_C14 = ("frames: every command code of the driver's table x payload lengths 
 REQUIRED_C13 = ["rcs380_c13_cells", "rcs380_c13_cells_rf_status", "rcs380_c13_cells_status_byte",
                 "rcs380_c13_cells_hostlink", "rcs380_c13_reference_exchanges", "rcs380_c13_host_frames_validated",
                 "rcs380_c13_finer_timeout_checked", "rcs380_c13_finer_rf_off_alone_checked",
-                "rcs380_c13_finer_rf_off_combined_checked"]
+                "rcs380_c13_finer_rf_off_combined_checked",
+                # host-link clause (exchange): every phase, preparatory and RF commands, both roles
+                "rcs380_c13_hostlink_write_checked", "rcs380_c13_hostlink_ack_checked", "rcs380_c13_hostlink_rsp_checked",
+                "rcs380_c13_hostlink_preparatory_checked", "rcs380_c13_hostlink_rf_command_checked",
+                "rcs380_c13_hostlink_as_initiator_checked", "rcs380_c13_hostlink_as_target_checked",
+                "rcs380_c13_surplus_delivered", "rcs380_c13_wrong_ack_delivered", "rcs380_c13_wrong_rsp_code_delivered",
+                # activation (real sense()/listen())
+                "rcs380_c13_activation_cells", "rcs380_c13_activation_absent_cells",
+                "rcs380_c13_hostlink_sense_checked", "rcs380_c13_hostlink_listen_checked",
+                "rcs380_c13_hostlink_sense_preparatory_checked", "rcs380_c13_hostlink_listen_preparatory_checked",
+                "rcs380_c13_activation_surplus_delivered", "rcs380_c13_activation_wrong_ack_delivered",
+                "rcs380_c13_activation_wrong_rsp_code_delivered",
+                "rcs380_c13_init_observed", "rcs380_c13_close_observed"]
 REQUIRED_C14 = ["rcs380_c14_frames_validated", "rcs380_c14_frame_class_validated", "rcs380_c14_rsp_mutations",
                 "rcs380_c14_t2crc_valid_returned", "rcs380_c14_t2crc_corrupt_rejected",
                 "rcs380_c14_operation_frames_validated"]
@@ -56,6 +84,8 @@ ASSUMPTIONS = [
     "rcs380: a device that stays silent is reported by the transport as IOError(ETIMEDOUT) (the real USB transport "
     "called with timeout 0 would block instead)",
     "rcs380: after an injected fault the following host commands of the same exchange are answered regularly",
+    "rcs380: a host command whose write or ACK read fails with IOError was not executed by the chip; one whose "
+    "response read fails was executed and its answer lost",
     "rcs380: Type 2 Tag responses of 2 bytes or less carry no CRC (ACK/NAK) and are outside the CRC oracle",
 ]
 
@@ -107,29 +137,44 @@ class SetupError(Exception):
 
 
 class Session:
-    def __init__(self, kind):
+    def __init__(self, kind, activate=True, absent=False):
+        """absent: nobody in front of the chip (no card in the field / no reader): sense()/listen() find nothing"""
         import nfc.clf
         self.nfc = nfc
         self.kind = kind
         self.is_target = kind in INI_KINDS
+        self.absent = absent
         self.clock = _setup()
         self.card = S.RemoteCard(kind) if not self.is_target else None
         self.ini = S.RemoteInitiator(kind) if self.is_target else None
-        self.sim = S.Port100Sim(clock=self.clock, card=self.card, initiator=self.ini)
+        self.sim = S.Port100Sim(clock=self.clock, card=None if absent else self.card,
+                                initiator=None if absent else self.ini)
         self.clf, self.dev = S.open_driver(self.sim)
         self.seq = 0
-        self.activate()
+        if activate:
+            self.activate()
 
     def activate(self):
-        nfc = self.nfc
+        t = self.enter()
         if not self.is_target:
-            t = self.clf.sense(nfc.clf.RemoteTarget(self.card.brty))
             if t is None:
                 raise SetupError("sense() found no %s target" % self.kind)
             for name, val in self.card.expected_target().items():
                 if bytes(getattr(t, name) or b"") != val:
                     raise SetupError("%s: sense() %s=%r, card says %r" % (self.kind, name, getattr(t, name), val))
             return
+        k = self.kind
+        if t is None:
+            raise SetupError("listen() was not activated as %s" % k)
+        want = {"TT2": "tt2_cmd", "TT4": "tt4_cmd", "TT3": "tt3_cmd", "DEP": "dep_req"}[k[:3]]
+        if getattr(t, want) is None:
+            raise SetupError("%s: listen() target without %s" % (k, want))
+
+    def enter(self):
+        """the real clf.sense() / clf.listen() for this kind -> whatever it returns (exceptions propagate)"""
+        nfc = self.nfc
+        if not self.is_target:
+            return self.clf.sense(nfc.clf.RemoteTarget(self.card.brty))
         k = self.kind
         lt = nfc.clf.LocalTarget(self.ini.brty)
         if k.startswith("DEP"):
@@ -143,12 +188,7 @@ class Session:
             lt.sensf_res = bytearray.fromhex("0101fe0102030405060000000000000000ffff")
         elif k.startswith("TT3"):
             lt.sensf_res = bytearray.fromhex("0102fe010203040506ffffffffffffffff12fc")
-        t = self.clf.listen(lt, 1.0)
-        if t is None:
-            raise SetupError("listen() was not activated as %s" % k)
-        want = {"TT2": "tt2_cmd", "TT4": "tt4_cmd", "TT3": "tt3_cmd", "DEP": "dep_req"}[k[:3]]
-        if getattr(t, want) is None:
-            raise SetupError("%s: listen() target without %s" % (k, want))
+        return self.clf.listen(lt, 1.0)
 
     def send_data(self):
         """what the exchange sends; carries a sequence number"""
@@ -278,6 +318,8 @@ def link_cells(good, rng, n_garbage=6):
               "io-eio@rsp", "io-enodev@rsp", "no-ack", "ack-ack", "error-frame", "error-frame-7f", "error-frame@ack",
               "wrong-rsp-code", "wrong-direction", "extra-bytes"):
         yield {"kind": "link", "fault": f}
+    for n in S.SURPLUS_LENGTHS:
+        yield {"kind": "link", "fault": "surplus", "n": n}
     for cut in range(0, len(S.ACK)):
         yield {"kind": "link", "fault": "short-ack", "cut": cut}
     for cut in range(0, len(good)):
@@ -302,10 +344,59 @@ def link_cells(good, rng, n_garbage=6):
         yield {"kind": "link", "fault": "garbage@ack", "bytes": g}
 
 
+WRONG_ACK_FAULTS = ("no-ack", "short-ack", "error-frame@ack", "garbage@ack")      # something else where the ACK belongs
+WRONG_RSP_FAULTS = ("wrong-rsp-code", "wrong-direction", "ack-ack", "error-frame", "error-frame-7f")
+
+
+def hostlink_clause(stage, kind, role_target, code, act, out, notes):
+    """the transport itself raised IOError while host command `code` was written, its ACK or its response read:
+    the harness knows that the host link is what failed, so the only documented report is IOError - never an RF
+    outcome, never data / a target, never None ("link broke" / "no target").  -> [(signature, what)]
+    out: outcome class ("IOError", "data", "none", "found", "clf.<Error>", "escape:..", "ret:..")"""
+    if act["kind"] != "link":
+        return []
+    phase = S.fault_phase(act["fault"])
+    if phase is None:
+        return []
+    cname = S.CMD_NAMES.get(code, "%02Xh" % code)
+    at_rf = code in S.RF_COMMANDS
+    if act["fault"] == "io-timeout@rsp" and at_rf:
+        # after a correct ACK the response to InCommRF/TgCommRF does not arrive: a driver that bounds this read by a
+        # host time-out cannot tell a dead reader from RF silence.  The unchanged driver reads without time-out (the
+        # chip enforces the RF time-out and reports RECEIVE_TIMEOUT_ERROR), so its IOError is what is seen here.
+        notes.append("rcs380_c13_hostlink_rsp_timeout_at_rf_observed")
+        notes.append("rcs380_c13_hostlink_rsp_timeout_at_rf_%s_%s" % (stage, out.split(":")[0].replace(".", "_")))
+        return []
+    notes.append("rcs380_c13_hostlink_%s_checked" % phase)
+    if stage == "exchange":
+        notes.append("rcs380_c13_hostlink_%s_checked" % ("rf_command" if at_rf else "preparatory"))
+        notes.append("rcs380_c13_hostlink_as_%s_checked" % ("target" if role_target else "initiator"))
+    else:
+        notes.append("rcs380_c13_hostlink_%s_checked" % stage)
+        notes.append("rcs380_c13_hostlink_%s_%s_checked" % (stage, "rf_command" if at_rf else "preparatory"))
+    if out == "IOError" or out.startswith("escape:") or out.startswith("ret:"):
+        return []                       # the latter two are violations of the coarse clause already
+    return [("rcs380/hostlink-%s/%s@%s->%s" % (phase, stage, cname, out),
+             "the host link failed (%s: transport IOError in the %s phase of %s during %s of %s) but the driver "
+             "reported %s instead of IOError" % (act["fault"], phase, cname, stage, kind, out))]
+
+
 def judge(sess, code, act, res, notes=None):
     """-> (outcome class, [(signature, what)]); the names of the finer clauses that applied are appended to notes"""
     if notes is None:
         notes = []
+    out, viol = _judge_coarse(sess, code, act, res, notes)
+    viol = viol + hostlink_clause("exchange", sess.kind, sess.is_target, code, act, out, notes)
+    if out == "none" and sess.is_target and act["kind"] == "link" and S.fault_phase(act["fault"]) is None:
+        # send_command() rejected what it read (wrong/cut ACK, wrong response code, error frame, unrecognised frame)
+        # and the failure of the host protocol surfaces as None = "the communication link broke" (an RF outcome)
+        viol.append(("rcs380/none-as-target/%s@%s" % (fault_class(act), S.CMD_NAMES.get(code, "%02Xh" % code)),
+                     "the chip's answer was rejected by the driver's frame handling (%s) and exchange() as target "
+                     "returned None (documented for a broken RF link) instead of raising IOError" % act["fault"]))
+    return out, viol
+
+
+def _judge_coarse(sess, code, act, res, notes):
     nfc = sess.nfc
     cname = S.CMD_NAMES.get(code, "%02Xh" % code)
     where = "%s@%s" % (fault_class(act), cname)
@@ -367,6 +458,24 @@ def judge(sess, code, act, res, notes=None):
     return out, viol
 
 
+def _count_soft(R, prefix, act, code, out):
+    f = act["fault"]
+    cname = S.CMD_NAMES.get(code, "%02Xh" % code)
+    o = out.split(":")[0]
+    if f == "surplus":
+        R.count(prefix + "surplus_delivered")
+        R.seen("rcs380_c13_surplus_outcomes", "%s%s+%d -> %s" % (prefix[11:], cname, act["n"], o))
+    elif f in WRONG_ACK_FAULTS:
+        R.count(prefix + "wrong_ack_delivered")
+        R.seen("rcs380_c13_wrong_ack_outcomes", "%s%s %s -> %s" % (prefix[11:], cname, f, o))
+    elif f in WRONG_RSP_FAULTS:
+        R.count(prefix + "wrong_rsp_code_delivered")
+        R.seen("rcs380_c13_wrong_rsp_outcomes", "%s%s %s -> %s" % (prefix[11:], cname, f, o))
+    if S.fault_phase(f) is None and code not in S.RF_COMMANDS and o in ("data", "found"):
+        # the driver did not notice (or ignored) that the answer to a preparatory command was not in order
+        R.count(prefix + "soft_fault_at_preparatory_ignored")
+
+
 def run_cell(sess, k, code, act, R, kind, fresh, send=None):
     n0 = sess.sim.fault_applied
     res, send = sess.exchange({k: act}, send=send)
@@ -382,6 +491,8 @@ def run_cell(sess, k, code, act, R, kind, fresh, send=None):
         R.count("rcs380_c13_fault_not_reached")
     for name in notes:
         R.count(name)
+    if delivered and act["kind"] == "link":
+        _count_soft(R, "rcs380_c13_", act, code, out)
     if act["kind"] == "rf_status" and sess.is_target and act["word"] & RF_OFF_BIT and not act["word"] & ~DOC_MASK:
         R.seen("rcs380_c13_target_rf_off_words_by_bits_set", bin(act["word"]).count("1"))
     R.seen("rcs380_c13_outcomes", "%s|%s -> %s" % ("target" if sess.is_target else "initiator", cls, out))
@@ -435,6 +546,200 @@ def c13_kind(kind, R, rng, n_random, all_pairs32, link_fresh):
         R.inconc("rcs380 C13 setup: %s" % e)
         return
     R.count("rcs380_c13_sessions", sessions)
+
+
+# ---- activation: the real clf.sense() / clf.listen() under faults -------------------------------------
+# "nobody there" variants: what sense()/listen() do when no card is in the field / no reader shows up
+ABSENT_KINDS = ["T2T", "T4B", "T3T212", "T3T424", "TT2", "TT4", "TT3-212", "DEP-106A"]
+ACTIVATIONS = [[k, False] for k in ALL_KINDS] + [[k, True] for k in ABSENT_KINDS]
+ACT_STATUS_BYTES = (0x01, 0x02, 0x7F, 0xFF)
+
+
+def activation_cells(code, good):
+    """fault actions for host command `code` of an activation whose regular response frame is `good`"""
+    for f in S.faults_hard():
+        yield {"kind": "link", "fault": f}
+    for n in S.SURPLUS_LENGTHS:
+        yield {"kind": "link", "fault": "surplus", "n": n}
+    for f in ("no-ack", "ack-ack", "error-frame", "error-frame-7f", "error-frame@ack", "wrong-rsp-code",
+              "wrong-direction", "extra-bytes"):
+        yield {"kind": "link", "fault": f}
+    for cut in range(0, len(S.ACK)):
+        yield {"kind": "link", "fault": "short-ack", "cut": cut}
+    for cut in range(0, len(good)):
+        yield {"kind": "link", "fault": "short-frame", "cut": cut}
+    for cut in range(0, len(good) - 10):
+        yield {"kind": "link", "fault": "short-payload", "cut": cut}
+    for g in (b"\x00", b"\x00\x00\xff\xff\xff\x05\x00\xfb", bytes(12)):
+        yield {"kind": "link", "fault": "garbage", "bytes": g}
+        yield {"kind": "link", "fault": "garbage@ack", "bytes": g}
+    if code in S.RF_COMMANDS:
+        for w in DOCUMENTED + [0xFFFFFFFF]:
+            yield {"kind": "rf_status", "word": w}
+    else:
+        for v in ACT_STATUS_BYTES:
+            yield {"kind": "status_byte", "value": v}
+
+
+def attempt_activation(kind, absent, script, spy=None):
+    """fresh simulator + driver (its own init()), then the real sense()/listen() under the script
+    -> (session, outcome class, exception or None)"""
+    sess = Session(kind, activate=False, absent=absent)
+    nfc = sess.nfc
+    sim = sess.sim
+    if spy is not None:
+        orig_execute = sim.execute
+
+        def spying(code, p):
+            r = orig_execute(code, p)
+            spy.append(pf.response(code, r))
+            return r
+        sim.execute = spying
+    sim.mark(script)
+    try:
+        t = sess.enter()
+    except OSError as e:
+        return sess, "IOError", e
+    except nfc.clf.Error as e:          # CommunicationError subclasses, UnsupportedTargetError
+        return sess, "clf." + type(e).__name__, e
+    except Exception as e:               # the oracle classifies it
+        return sess, "escape:" + type(e).__name__, e
+    finally:
+        if spy is not None:
+            del sim.execute
+    if t is None:
+        return sess, "none", None
+    if isinstance(t, (nfc.clf.RemoteTarget, nfc.clf.LocalTarget)):
+        return sess, "found", None
+    return sess, "ret:" + type(t).__name__, None
+
+
+def run_activation_cell(kind, absent, k, code, act, R):
+    stage = "listen" if kind in INI_KINDS else "sense"
+    label = ("nobody:" if absent else "") + kind
+    sess, out, exc = attempt_activation(kind, absent, {k: act})
+    delivered = sess.sim.fault_applied > 0
+    key = ("activation", kind, absent, k, sorted((a, bytes(b).hex() if isinstance(b, (bytes, bytearray)) else b) for a, b in act.items()))
+    R.case(key, nontrivial=delivered)
+    R.count("rcs380_c13_activation_attempts")
+    R.count("rcs380_c13_host_frames_validated", sess.sim.frames_checked)
+    _report_frame_errors(sess.sim, R, "c13")
+    if not delivered:
+        R.count("rcs380_c13_activation_fault_not_reached")
+        return out
+    cname = S.CMD_NAMES.get(code, "%02Xh" % code)
+    where = "%s@%s" % (fault_class(act), cname)
+    notes = []
+    viol = []
+    if out.startswith("escape:"):
+        viol.append(("rcs380/escape/%s/%s/%s" % (_xsig(exc), where, stage),
+                     "%s.%s escaped ContactlessFrontend.%s(): %s" % (type(exc).__module__, type(exc).__name__, stage, str(exc)[:120])))
+    elif out.startswith("ret:"):
+        viol.append(("rcs380/bad-return/%s/%s/%s" % (out[4:], where, stage), "%s() returned a %s" % (stage, out[4:])))
+    viol += hostlink_clause(stage, label, kind in INI_KINDS, code, act, out, notes)
+    for name in notes:
+        R.count(name)
+    if act["kind"] == "link":
+        _count_soft(R, "rcs380_c13_activation_", act, code, out)
+    R.seen("rcs380_c13_activation_outcomes", "%s|%s -> %s" % (stage, fault_class(act), out))
+    R.count("rcs380_c13_activation_outcome_" + out.split(":")[0].replace(".", "_"))
+    for sig, what in viol:
+        case = {"family": FAM, "prop": "c13", "stage": "activation", "kind": kind, "absent": bool(absent), "k": k,
+                "code": code, "act": act}
+        text = "%s %s host command %d (%s): %s" % (sig, label, k, cname, what)
+        if exc is not None:
+            text += " | " + exc_text(exc)[-400:].replace("\n", " / ")
+        R.violation(sig, text, case)
+    return out
+
+
+def c13_activation(kind, absent, R, rng):
+    label = ("nobody:" if absent else "") + kind
+    goods = []
+    sess, out, exc = attempt_activation(kind, absent, None, spy=goods)
+    codes = [c for c, _ in sess.sim.cmdlog]
+    want = "none" if absent else "found"
+    if out != want or not codes or len(goods) != len(codes):
+        R.inconc("rcs380 C13: reference activation of %s gave %s (%r), expected %s" % (label, out, exc, want))
+        return
+    sess2, out2, _ = attempt_activation(kind, absent, None)
+    if (out2, [c for c, _ in sess2.sim.cmdlog]) != (out, codes):
+        R.inconc("rcs380 C13: the reference activation of %s is not reproducible" % label)
+        return
+    R.count("rcs380_c13_activation_cells")
+    if absent:
+        R.count("rcs380_c13_activation_absent_cells")
+    R.max("rcs380_c13_host_commands_per_activation", len(codes))
+    R.seen("rcs380_c13_activation_command_sequences", "%s: %s" % (label, " ".join(S.CMD_NAMES[c] for c in codes)))
+    for k, code in enumerate(codes, 1):
+        for act in activation_cells(code, goods[k - 1]):
+            run_activation_cell(kind, absent, k, code, act, R)
+
+
+# ---- init() and close() under the same faults: observed, no verdict ------------------------------------
+def _classify_exc(nfc, e):
+    if isinstance(e, OSError):
+        return "IOError"
+    if isinstance(e, nfc.clf.Error):
+        return "clf." + type(e).__name__
+    return "escape:" + _xsig(e)
+
+
+def c13_init_close(R, rng):
+    import nfc.clf
+    import nfc.clf.rcs380 as drv
+    _setup()
+
+    def open_under(script, spy=None):
+        sim = S.Port100Sim(clock=_CLOCK, card=None)
+        sim.script = dict(script or {})
+        if spy is not None:
+            orig_execute = sim.execute
+
+            def spying(code, p):
+                r = orig_execute(code, p)
+                spy.append(pf.response(code, r))
+                return r
+            sim.execute = spying
+        try:
+            drv.init(sim)
+            return sim, "ok", None
+        except Exception as e:
+            return sim, _classify_exc(nfc, e), e
+
+    goods = []
+    sim, out, exc = open_under(None, goods)
+    codes = [c for c, _ in sim.cmdlog]
+    if out != "ok" or len(goods) != len(codes):
+        R.inconc("rcs380 C13: init() on the undisturbed simulator gave %s (%r)" % (out, exc))
+        return
+    R.seen("rcs380_c13_init_command_sequence", " ".join(S.CMD_NAMES[c] for c in codes))
+    for k, code in enumerate(codes, 1):
+        for act in activation_cells(code, goods[k - 1]):
+            sim, out, exc = open_under({k: act})
+            if not sim.fault_applied:
+                continue
+            R.case(("init", k, sorted((a, bytes(b).hex() if isinstance(b, (bytes, bytearray)) else b) for a, b in act.items())))
+            R.count("rcs380_c13_init_observed")
+            R.seen("rcs380_c13_init_outcomes", "%s@%s -> %s" % (fault_class(act), S.CMD_NAMES[code], out))
+            if act["kind"] == "link" and S.fault_phase(act["fault"]):
+                R.count("rcs380_c13_init_hostlink_" + ("IOError" if out == "IOError" else "other"))
+    # close(): SwitchRF off, ACK, transport.close()
+    good = pf.response(0x06, b"\x00")
+    for act in activation_cells(0x06, good):
+        sim = S.Port100Sim(clock=_CLOCK, card=None)
+        clf, dev = S.open_driver(sim)
+        sim.mark({1: act})
+        try:
+            dev.close()
+            out = "ok"
+        except Exception as e:
+            out = _classify_exc(nfc, e)
+        if not sim.fault_applied:
+            continue
+        R.case(("close", sorted((a, bytes(b).hex() if isinstance(b, (bytes, bytearray)) else b) for a, b in act.items())))
+        R.count("rcs380_c13_close_observed")
+        R.seen("rcs380_c13_close_outcomes", "%s@SwitchRF -> %s%s" % (fault_class(act), out, "" if sim.closed else " (transport left open)"))
 
 
 def _report_frame_errors(sim, R, prop):
@@ -500,10 +805,16 @@ def plan_c13(tier):
     if tier == "quick":
         # the remote-card kinds have four host commands per exchange, the listen kinds one: ALL_KINDS lists the nine card
         # kinds first, so dealing them round-robin gives every shard two or three card kinds and one or two listen kinds
-        return [{"kinds": g, "n_random": 1000, "pairs32": False, "link_fresh": True, "timeout": 300}
-                for g in _balanced(ALL_KINDS, 4)]
-    return [{"kinds": g, "n_random": 40000, "pairs32": True, "link_fresh": True, "timeout": 1500}
-            for g in _balanced(ALL_KINDS, 8)]
+        plans = [{"kinds": g, "n_random": 1000, "pairs32": False, "link_fresh": True, "timeout": 300}
+                 for g in _balanced(ALL_KINDS, 4)]
+    else:
+        plans = [{"kinds": g, "n_random": 40000, "pairs32": True, "link_fresh": True, "timeout": 1500}
+                 for g in _balanced(ALL_KINDS, 8)]
+    # activation cells (same content in both tiers: the enumeration is complete), heaviest shards last
+    for i, g in enumerate(_balanced(ACTIVATIONS, len(plans))):
+        plans[len(plans) - 1 - i]["activations"] = g
+    plans[0]["init_close"] = True
+    return plans
 
 
 def run_c13(desc, R, rng):
@@ -515,12 +826,23 @@ def run_c13(desc, R, rng):
     R.count("rcs380_c13_sim_selftest_ok")
     for kind in desc["kinds"]:
         c13_kind(kind, R, rng, desc["n_random"], desc["pairs32"], desc["link_fresh"])
-    R.sample({"family": FAM, "kinds": desc["kinds"]})
+    for kind, absent in desc.get("activations", []):
+        try:
+            c13_activation(kind, absent, R, rng)
+        except SetupError as e:
+            R.inconc("rcs380 C13 activation setup: %s" % e)
+    if desc.get("init_close"):
+        c13_init_close(R, rng)
+    R.sample({"family": FAM, "kinds": desc["kinds"], "activations": desc.get("activations", [])})
 
 
 def replay_c13(case, R):
     """fresh driver + simulator, real activation into the kind, the one exchange under the recorded script"""
     _setup()
+    if case.get("stage") == "activation":
+        out = run_activation_cell(case["kind"], bool(case.get("absent")), case["k"], case["code"], dict(case["act"]), R)
+        R.count("rcs380_replay_outcome_" + out.split(":")[0].replace(".", "_"))
+        return
     try:
         sess = Session(case["kind"])
     except SetupError as e:
